@@ -336,7 +336,9 @@ def make_decimal(rule, dsep, tsep, fmt, maxlen, scale=2, specials=False):
         df = ff.data_format(fmt, None, props)
         field = ff.build_field("Decimal", False, "", rule, df)
         cell0 = args["cell"]
-        variants = [cell0, "".join(c if c in ".,-+" else "5" for c in cell0),
+        # the value the stub answered with (k / 10^scale), written the way the format writes numbers
+        k_text = str(decimal.Decimal(args.get("k", 0)).scaleb(-scale)).replace(".", dsep)
+        variants = [cell0, k_text, "".join(c if c in ".,-+" else "5" for c in cell0),
                     "".join(c if c in ".," else "1" for c in cell0)] + DEC_SPECIALS + ["inf", "-inf", "+Infinity", "nan"]
         last = ""
         for cell in variants:
@@ -896,23 +898,27 @@ def native_checks():
     for fmt in ff.FORMATS:
         for t, length, rule, cell, exp in cases:
             pad = 0 if t == "Constant" else 1  # a Constant's length must match its value
-            if fmt == "fixed":
-                length = str(len(cell) + pad)
-            n += 1
-            try:
-                df = ff.data_format(fmt)
-                f = ff.build_field(t, False, length, rule, df)
-                got = f.validated(cell + (" " * pad if fmt == "fixed" else ""))
-                ok = got == exp and type(got) is type(exp)
-                what = "%s(rule=%r) under %s: validated(%r) -> %r (%s), expected %r" % (t, rule, fmt, cell, got,
-                                                                                      type(got).__name__, exp)
-            except Exception as e:  # noqa
-                ok = False
-                what = "%s(rule=%r) under %s: validated(%r) raised %s: %s" % (t, rule, fmt, cell, type(e).__name__, e)
-            if not ok:
-                failures.append(dict(key="native-type", what=what, args=dict(type=t, fmt=fmt, cell=cell)))
-            elif len(samples) < 2:
-                samples.append(dict(query="native/type", case=what))
+            for align in (("left", "right", "centre") if (fmt == "fixed" and t != "Constant") else ("left",)):
+                n += 1
+                stored = cell
+                try:
+                    df = ff.data_format(fmt)
+                    if fmt == "fixed":
+                        # left-aligned, right-aligned or centred in a field one (two) characters wider than the value
+                        length = str(len(cell) + (2 if align == "centre" else pad))
+                        stored = {"left": cell + " " * pad, "right": " " * pad + cell, "centre": " " + cell + " "}[align]
+                    f = ff.build_field(t, False, length, rule, df)
+                    got = f.validated(stored)
+                    ok = got == exp and type(got) is type(exp)
+                    what = "%s(rule=%r) under %s: validated(%r) -> %r (%s), expected %r" % (t, rule, fmt, stored, got,
+                                                                                          type(got).__name__, exp)
+                except Exception as e:  # noqa
+                    ok = False
+                    what = "%s(rule=%r) under %s: validated(%r) raised %s: %s" % (t, rule, fmt, stored, type(e).__name__, e)
+                if not ok:
+                    failures.append(dict(key="native-type", what=what, args=dict(type=t, fmt=fmt, cell=stored)))
+                elif len(samples) < 2:
+                    samples.append(dict(query="native/type", case=what))
     return dict(count=n, failures=failures, samples=samples)
 
 
